@@ -31,7 +31,7 @@ Deliver, for variant X in {names}, the directory {out}/X/ containing exactly:
   patch.diff  (git diff, applies with `git apply` at the worktree root on the unchanged tree)
   demo.py
   meta.json   {{"summary": "...what was changed and the cover story...", "what_it_breaks": "...which clause of the property and how a user is harmed...", "needs_to_manifest": "...the specific schedule/crash point/sequence/input needed..."}}
-Leave the worktree clean (git checkout -- .) at the end. Your final answer: 3 lines per variant (what, where, what it needs to manifest) and whether all the procedure steps succeeded.
+{avoid}Leave the worktree clean (git checkout -- .) at the end. Your final answer: 3 lines per variant (what, where, what it needs to manifest) and whether all the procedure steps succeeded.
 '''
 
 def main():
@@ -45,7 +45,16 @@ def main():
             break
     p = {k: p[k] for k in ('id', 'title', 'statement', 'quantifier', 'why_tests_cant', 'anchors')}
     os.makedirs('/tmp/seedtask', exist_ok=True); os.makedirs(out, exist_ok=True)
-    txt = T.format(wt=wt, prop=json.dumps(p, indent=1), out=out, nvar=len(names), names='/'.join(names))
+    avoid = ''
+    import glob
+    prev = []
+    for mf in sorted(glob.glob(os.path.join(V, 'seeded', pid + '-*', 'meta.json'))):
+        m = json.load(open(mf))
+        prev.append('  - ' + ' '.join((m.get('summary') or '').split())[:260])
+    if prev and names[0] != 'A':
+        avoid = ('ALREADY EXPLORED by earlier rounds (do NOT repeat these or close cousins of them; attack other code sites, other clauses of the property, other mechanisms):\n'
+                 + '\n'.join(prev) + '\n\n')
+    txt = T.format(wt=wt, prop=json.dumps(p, indent=1), out=out, nvar=len(names), names='/'.join(names), avoid=avoid)
     fn = f'/tmp/seedtask/{pid}_{names[0]}.md'
     open(fn, 'w').write(txt)
     print(fn, wt)
